@@ -33,6 +33,8 @@ def act_expr(a):
     if a is None: return 'none'
     if a == 'defer': return 'Defer'
     if isinstance(a, int): return 'Act<%d>' % a
+    if isinstance(a, tuple) and a[0] == 'seq':
+        return 'msm::front::ActionSequence_<mpl::vector<%s > >' % ', '.join('Act<%d>' % x for x in a[1])
     if isinstance(a, tuple) and a[0] == 'send':
         md = {'p': 0, 'q': 1}
         if len(a[2]) == 1: return 'ActSend<%d, %s, %d>' % (a[1], a[2][0][0], md[a[2][0][1]])
@@ -44,6 +46,9 @@ def act_expr(a):
 def guard_expr(g, completion=False):
     if g is None: return 'none'
     if isinstance(g, int): return ('Gc<%d>' if completion else 'Gd<%d>') % g
+    if isinstance(g, tuple) and g[0] in ('and', 'or', 'not'):
+        ft = {'and': 'msm::front::And_', 'or': 'msm::front::Or_', 'not': 'msm::front::Not_'}[g[0]]
+        return '%s<%s >' % (ft, ', '.join(guard_expr(x) for x in g[1:]))
     if isinstance(g, tuple) and g[0] == 'cpp': return g[1]
     raise ValueError(g)
 
@@ -102,7 +107,30 @@ def emit_machine(prog, m, out, is_root, opts):
         (r.src == st.name or r.tgt == st.name) for r in m.rows)]
     if expl: out.append('  typedef mpl::vector<%s > explicit_creation;' % ', '.join(expl))
     rows = []
+    basic = opts.get('front') == 'basic'
+    if basic:
+        # the same table written with the basic (member-function pointer) front-end: row / a_row / g_row / _row and the irow family
+        done = set()
+        for r in m.rows:
+            if isinstance(r.act, int) and ('a', r.act, r.evt) not in done:
+                done.add(('a', r.act, r.evt))
+                out.append('  void a%d_%s(%s const& e) { vf_log(VF_ACT(%d), vf_pay(e)); }' % (r.act, r.evt, r.evt, r.act))
+            if isinstance(r.guard, int) and ('g', r.guard, r.evt) not in done:
+                done.add(('g', r.guard, r.evt))
+                out.append('  bool g%d_%s(%s const&) { return vf_guard(%d) != 0; }' % (r.guard, r.evt, r.evt, r.guard))
     for r in m.rows:
+        if basic and r.evt is not None and (r.act is None or isinstance(r.act, int)) and (r.guard is None or isinstance(r.guard, int)) \
+                and (r.tgt is None or isinstance(r.tgt, str)) and isinstance(r.src, str):
+            a = '&%s::a%d_%s' % (fe, r.act, r.evt) if r.act is not None else None
+            g = '&%s::g%d_%s' % (fe, r.guard, r.evt) if r.guard is not None else None
+            if r.tgt is None:
+                kind = 'irow' if (a and g) else 'a_irow' if a else 'g_irow' if g else '_irow'
+                args = [r.src, r.evt] + [x for x in (a, g) if x]
+            else:
+                kind = 'row' if (a and g) else 'a_row' if a else 'g_row' if g else '_row'
+                args = [r.src, r.evt, r.tgt] + [x for x in (a, g) if x]
+            rows.append('%s<%s >' % (kind, ', '.join(args)))
+            continue
         ge = guard_expr(r.guard, r.evt is None or r.act == 'defer')
         if getattr(r, 'gsend', None):
             ge = 'GdSend<%d, %s, %d>' % (r.guard, r.gsend[0][0], {'p': 0, 'q': 1}[r.gsend[0][1]])
